@@ -2,7 +2,8 @@
 
 The real CLI (built from the tree under test) follows a file that THIS script appends to with generated
 timing: bursts, single lines, pauses longer than the 250 ms flush timeout, a line written in two pieces,
-CRLF lines, empty lines, an unterminated last line, with -F a rotation (remove after drain, re-create).
+CRLF lines, empty lines, an unterminated last line, with -F a rotation (remove after drain + re-create, rename away +
+re-create, or an atomic replace: a new file renamed ONTO the path).
 `--line` makes every output line carry the line number the batcher attached (BatchStart + index), so the
 comparison is: stdout == [ "<path> <n>: <line>" for the n-th line appended after the start position,
 if non-empty ], exactly once, in order (`--workers 1`; with more workers the batches may overtake each
@@ -209,12 +210,26 @@ def one_run(exe, work, rnd, idx, poll, reopen, tail, rotate, race=False):
 
         sentinel()
         if rotate and reopen:
-            os.remove(path)
-            time.sleep(rnd.intn(20) / 1000.0)
-            with open(path, "wb"):
-                pass
+            # kinds of rotation: remove + re-create (True), rename away + re-create ("rename": logrotate's default),
+            # atomic replace ("replace": a new file renamed ONTO the path - one Create event, no Remove; /repo f4a9570)
+            kind = rotate if isinstance(rotate, str) else "remove"
             # polling re-open needs the new file to be SHORTER than what was delivered when the poller looks
-            w.append(b"n%d\n" % idx)
+            first = b"n%d\n" % idx
+            if kind == "replace":
+                tmp = path + ".tmp"
+                with open(tmp, "wb") as f:
+                    f.write(first)
+                os.replace(tmp, path)
+                w.log += first
+            else:
+                if kind == "rename":
+                    os.rename(path, path + ".1")
+                else:
+                    os.remove(path)
+                time.sleep(rnd.intn(20) / 1000.0)
+                with open(path, "wb"):
+                    pass
+                w.append(first)
             if poll:
                 time.sleep((ATTEMPTS + 3) * POLL)   # let the poller notice the (still short) new file
             w.trickle(1 + rnd.intn(2))
@@ -264,7 +279,7 @@ def one_run(exe, work, rnd, idx, poll, reopen, tail, rotate, race=False):
     def show(x):
         return None if x is None else {"number": x[0], "line_hex": x[1][:200].hex()}
     return {"key": "cli-follow-%s%s%s%s" % ("poll" if poll else "notify", "-reopen" if reopen else "", "-tail" if tail else "",
-                                           "-rotate" if rotate else ""),
+                                           ("-rotate" if rotate is True else "-rotate-" + rotate) if rotate else ""),
             "kind": "cli-follow-stdout", "cmd": info["cmd"], "notes": info["fatal"] + info["notes"], "rc": p.returncode,
             "printed_lines": len(got), "expected_lines": len(want), "first_difference_at": k,
             "printed": show(got[k] if k < len(got) else None), "expected": show(want[k] if k < len(want) else None),
@@ -357,13 +372,14 @@ def run(ctx):
     work = ctx["work"]
     # (poll, reopen, tail, rotate)
     plan = [(False, False, False, False), (False, True, False, True), (False, False, True, False),
-            (True, False, False, False), (False, True, True, False), (True, True, False, True)]
+            (True, False, False, False), (False, True, True, False), (True, True, False, True),
+            (False, True, False, "replace")]
     if ctx["tier"] != "quick":
         extra = []
         for i in range(34):
             poll = i % 5 == 4
             reopen = rnd.intn(2) == 1
-            extra.append((poll, reopen, rnd.intn(3) == 0, reopen and rnd.intn(2) == 1))
+            extra.append((poll, reopen, rnd.intn(3) == 0, rnd.pick([True, "rename", "replace", "replace"]) if reopen and rnd.intn(2) == 1 else False))
         plan = plan + extra
     # several files at once, --readers 1 (None = multi_run); quick: one notify run, thorough: all four combinations
     multi = [(False, False)] if ctx["tier"] == "quick" else [(False, False), (False, True), (True, False), (True, True)]
